@@ -134,6 +134,21 @@ pub fn expected_from_model(model: &Model, t: &TextTrace) -> Option<Vec<String>> 
                     _ => out.push(printed),
                 }
             }
+            TextLine::Prefixed(prefix, th) => {
+                if !trace::class_ok(&th.class) || th.message.as_ref().map_or(false, |m| m.is_empty() || m.trim() != m) {
+                    return None;
+                }
+                // prefixes that contain a blank before the class make the whole line "class with a space": not a throwable.
+                // prefixes without any blank (e.g. "Caused by:") glue to the class; either way the mapping cannot know it
+                // unless the glued string happens to be a class of the mapping (checked through the model).
+                let line = format!("{prefix}{}", th.print());
+                let trimmed = line.trim();
+                let head = trimmed.split(": ").next().unwrap_or("");
+                if i == 0 && !head.contains(' ') && model.class(head).is_some() {
+                    return None; // would legitimately be remapped; leave it to the composition oracle
+                }
+                out.push(line);
+            }
             TextLine::Raw(_) => return None,
         }
     }
@@ -193,6 +208,9 @@ fn classify_text(t: &TextTrace, st: &mut Stats) {
     }
     if t.lines.iter().any(|l| matches!(l, TextLine::IndentedCause(..))) {
         st.class("indented 'Caused by:' line (must pass through)");
+    }
+    if t.lines.iter().any(|l| matches!(l, TextLine::Prefixed(..))) {
+        st.class("throwable behind a non-cause prefix (Suppressed:, caused by:, logcat tag …)");
     }
     if t.lines.iter().any(|l| matches!(l, TextLine::Invisible(..))) {
         st.class("invisible character in front of a class name");
